@@ -391,11 +391,30 @@ func checkC05(run *Run, res *Result) {
 			judge(mm, e.M, ep, e.N, "an explicit save ("+e.S+")")
 		case journal.KDisk:
 			if (e.S == "write" || e.S == "write-short" || e.S == "chunk" || e.S == "trunc") && strings.HasSuffix(e.S2, ".json") {
+				var held []int
 				for vb := range stored {
+					if haveStored[vb] {
+						held = append(held, vb)
+					}
 					delete(stored, vb)
 					delete(haveStored, vb)
 				}
 				fs := parseFileStore(e.Raw)
+				if e.S == "write" && len(fs) > 0 {
+					// a completed save stores the position of *every* assigned vBucket that was ever advanced: a
+					// whole-state backend that is handed only part of the state silently forgets the rest
+					var lost []int
+					for _, vb := range held {
+						if _, ok := fs[vb]; !ok {
+							lost = append(lost, vb)
+						}
+					}
+					if len(lost) > 0 {
+						sort.Ints(lost)
+						res.violate("C05", "R5-stored-checkpoint-dropped", e.N, "file", "file backend: a completed save rewrote the checkpoint file without the entries of vBuckets %v, whose settled positions it held before", lost)
+					}
+					res.probe("file-save-completeness-judged")
+				}
 				for vb, o := range fs {
 					stored[vb], haveStored[vb] = o.Seq, true
 				}
